@@ -17,9 +17,10 @@
    /verif/fixes/C10-unsorted-indices.patch (values brought into increasing dof order by
    argsort); the behaviour of the unrepaired line is kept as [rls_init_unsorted_bug] for the
    refuted theorem. *)
-From Coq Require Import List Arith Bool ZArith.
+From Coq Require Import List Arith Bool ZArith QArith.
 From Verif.lib Require Import Slice.
 Import ListNotations.
+Local Open Scope nat_scope.
 
 (* ------------------------------------------------------------------------- *)
 (* selection by a boolean mask: I[mask] (assemble.py:600-607)                  *)
@@ -283,3 +284,15 @@ Definition initial_indices (shape : list nat) (b : bdspec) : option (list nat) :
       end
   | None => None
   end.
+
+(* ------------------------------------------------------------------------- *)
+(* compute_initial_condition_01: the 2x2 collocation solve (assemble.py:533-541) *)
+(* ------------------------------------------------------------------------- *)
+
+(* np.linalg.solve(bdcolloc, coeffs01), one column: bdcolloc = [[c00, c01], [c10, c11]] holds
+   value (row 0) and first derivative (row 1) of the two boundary basis functions of the time
+   axis at the end point; the result is the solution of the 2x2 system (Cramer's rule; LAPACK
+   computes the same solution by LU) *)
+Definition solve2 (c00 c01 c10 c11 g0 g1 : Q) : Q * Q :=
+  let det := (c00 * c11 - c01 * c10)%Q in
+  (((g0 * c11 - c01 * g1) / det)%Q, ((c00 * g1 - c10 * g0) / det)%Q).
